@@ -196,6 +196,41 @@ def _work(units):
             check_variants(acc, name, " ".join(lexs), gen_after())
             for v in acc.viol[n0:]:
                 v["before"] = poison
+        elif u[0] == "onto":
+            # a pure white-space variant given to an evaluator that currently holds a LAYOUT TWIN of it (the same text but for the
+            # number of blanks inside a string literal): the variant must take effect - white space between tokens is
+            # meaningless, white space inside a literal is data
+            _, name = u
+            lexs = eb.lexemes(B[name])
+            base_text = " ".join(lexs)
+            lit = next((x for x in lexs if x[:1] in "\"'" and " " in x), None)
+            bb = impl.build(base_text)
+            if lit is None or bb[0] != "ok":
+                continue
+            twin = base_text.replace(lit, lit.replace(" ", "  ", 1), 1)
+            cl = rp.classify(base_text)
+            envs = probes(cl[1])
+            want = outcomes(bb[1], envs)
+            for key, text in variants_single(lexs, [" ", "\n", "\t", "  \n  ", "\r\n"]):
+                if rp.classify(text) != cl:
+                    continue
+                acc.add("programs")
+                tw = impl.build(twin)
+                if tw[0] != "ok" or outcomes(tw[1], envs) == want:
+                    break  # (the twin is not distinguishable on the probes: nothing to see)
+                try:
+                    from ..common import quiet
+
+                    with quiet():
+                        tw[1].recompile(text)
+                    got = outcomes(tw[1], envs)
+                except Exception as e:  # noqa
+                    got = [("exc", type(e).__name__)]
+                acc.add("evaluations", len(envs))
+                if got != want:
+                    acc.violation({"kind": "trivia:onto", "sub": "eval", "text": text, "base": name, "trivia": key[1], "gap": key[0], "before": twin,
+                                   "observed": short(repr(got), 200), "why": "recompiled onto an evaluator holding the same text with another number of blanks INSIDE a string literal, the variant does not behave like the base program"})  # fmt: skip
+                    break
         elif u[0] == "lexseq":
             _, first, n = u
             for rest in product(LEXSEQ, repeat=n - 1):
@@ -225,6 +260,7 @@ def units(tier):
             out += [("twogaps", nme, it) for it in ("/* a */", "// a\n")]
     for nme in ("salt", "comments") if tier == "quick" else names:
         out += [("after", nme, p) for p in POISON]
+    out += [("onto", nme) for nme in (("basic_experiment", "salt", "splitters") if tier == "quick" else names)]
     n, m = (5, 3) if tier == "quick" else (6, 4)
     for k in range(1, n + 1):
         out += [("lexseq", f, k) for f in LEXSEQ]
@@ -249,6 +285,9 @@ def replay(data):
         lex_compare(acc, data["text"])
         return bool(acc.viol), (acc.viol[0]["why"] + " vs " + str(acc.viol[0]["observed"]) if acc.viol else "token streams agree")
     B = eb.all_bases()
+    if data.get("kind") == "trivia:onto":
+        r = _work([("onto", data["base"])])
+        return bool(r["viol"]), (r["viol"][0]["why"] if r["viol"] else "variant takes effect")
     lexs = eb.lexemes(B[data["base"]])
     acc = progcheck.Acc()
     key = (0 if data.get("sub") == "eval" else 1, data.get("trivia", ""), "replay")
